@@ -13,8 +13,9 @@ CLAIMS = {
             'and imm8 presence are those of IA-32; that no two rows claim one cell; that self.l/self.b/self.offset are the consumed window; that ModRM/displacement/moffs are sized by the '
             'address size and immediates/relative targets/registers by the operand size; that get_afs reads each displacement token with its own format and byte count; that all 256 32-bit ModRM '
             'entries, 3 x 256 SIB entries, 256 16-bit ModRM entries and the mm/xmm register forms built by init_pre_modrm (evaluated statically) equal the architectural definition, and the register '
-            'lists carry the IA-32 numbering.',
-            'Not decided: the register file chosen per SSE row inside _dis (e.g. 66 0F D6 with mod=3), rendering by '
+            'lists carry the IA-32 numbering; that for every MMX/SSE row and mandatory prefix the register files of the reg and r/m operands selected by _dis (its selection code evaluated '
+            'statically) are those of the IA-32 operand signature (V/W/P/Q/G/E, ref ops clauses).',
+            'Not decided: rendering by '
             '__str__/dict_to_ad. The ref is trusted (authored from the SDM; disagreements found while authoring were triaged against gdb/objdump knowledge: 2 typos fixed, 1 known finding).'),
     'C02': ('other',
             'static analysis: narrowing-site classification over the assembly closure (dominance of the range check whose size token equals the narrowing), interval extraction of check_imm_size, mode-variable consistency',
